@@ -303,6 +303,18 @@ DoPassword(st, op) ==
               [Out0 EXCEPT !.at = np.at, !.rt = np.rt, !.expin = st.cfg.l_at])
 
 (* ======================================================================== *)
+(* JWT-bearer grant (RFC 7523) by an issuer whose key is registered, without client authentication: an access token  *)
+(* that belongs to NO client (the step-level model of the same request is AssertionStep in Steps.tla)                *)
+(* ======================================================================== *)
+DoJBearer(st, op) ==
+  IF JTIKnown(st.S, op.val) THEN Fail(st, "jti_known", "jti_replayed")
+  ELSE LET i == Count(st.S.at) + 1
+           row == [rid |-> st.nrid + 1, client |-> "", scopes |-> {"a"}, aud |-> {"https://issuer.example/token"}, sub |-> "sub-1",
+                   exp |-> st.now + st.cfg.l_at, via |-> "token", present |-> TRUE, why |-> "", ep |-> st.nep + 1, dl |-> TRUE]
+       IN Ret([st EXCEPT !.S = CreateAccessTokenSession(MarkJTI(st.S, op.val), i, row), !.nrid = @ + 1, !.nep = @ + 1],
+              [Out0 EXCEPT !.at = i, !.expin = st.cfg.l_at])
+
+(* ======================================================================== *)
 (* Revocation endpoint                                                      *)
 (* ======================================================================== *)
 DoRevoke(st, op) ==
@@ -474,6 +486,7 @@ Apply(st, op) ==
     [] op.op = "devstart"     -> DoDevStart(st, op)
     [] op.op = "devdecide"    -> DoDevDecide(st, op)
     [] op.op = "devpoll"      -> DoDevPoll(st, op)
+    [] op.op = "jbearer"      -> DoJBearer(st, op)
     [] op.op = "push"         -> DoPush(st, op)
     [] op.op = "usepar"       -> DoUsePar(st, op)
     [] op.op = "tick"         -> DoTick(st, op)
